@@ -53,7 +53,7 @@ PID = "C15"
 LEVEL = "exploration"
 CASE_TIMEOUT = 60
 HANG_IS_VIOLATION = False
-WALL = {"quick": 150, "thorough": 1400}
+WALL = {"quick": 130, "thorough": 1400}
 MAX_STEPS = 400_000
 RULE = (
     "two legs, half of the budget each. seq: Colang 1.0 config (dialog rails on ~75%, 0-1 input rail of check/rewrite/shipped "
@@ -1063,4 +1063,4 @@ def strategy(tier):
 
 
 def budget(tier):
-    return 640 if tier == "quick" else 10000
+    return 1440 if tier == "quick" else 10000
